@@ -1,7 +1,12 @@
 package c12
 
 import (
+	"fmt"
+	"math"
 	"testing"
+	"time"
+
+	"github.com/dop251/goja/ftoa"
 
 	"verif/harness/core"
 )
@@ -10,5 +15,23 @@ func TestProf(t *testing.T) {
 	for i := 0; i < 12; i++ {
 		c := &core.Ctx{Property: "C12", Tier: "quick", Seed: 1, Index: i, Rng: core.CaseRng(1, "C12", i), Stats: core.NewStats()}
 		run(c)
+	}
+}
+
+func TestHang(t *testing.T) {
+	for _, x := range []float64{-9.99999999e-315, 9.99999999e-315, 5e-324, 1e-310, 2.2250738585072014e-308, 1e-300, 1e-200, 1e-100, 1e-50, 1e-30, 1.5e-25} {
+		for _, a := range []int{0, 1, 2, 20, 100} {
+			done := make(chan string, 1)
+			t0 := time.Now()
+			go func() { done <- string(ftoa.FToStr(x, ftoa.ModeFixed, a, nil)) }()
+			select {
+			case s := <-done:
+				if d := time.Since(t0); d > 20*time.Millisecond {
+					fmt.Println("slow", x, a, d, len(s))
+				}
+			case <-time.After(5 * time.Second):
+				fmt.Println("HANG at toFixed", x, a, math.Float64bits(x))
+			}
+		}
 	}
 }
